@@ -8,6 +8,7 @@
 //	                         panic:<code>, blocked); lines are flushed one by one so that a Go fatal
 //	                         error (which kills this process) is attributed to the next sequence by the
 //	                         driver, which restarts the harness after it.
+//	-extra sched -input F  : controlled multi-thread scenarios on the lock wrappers (sched.go)
 //	-extra conc[:<start>]  : seeded concurrent scenarios on the wrappers with real goroutines
 //	                         (producers/consumers on a channel, lockers on Mutex, readers/writers on
 //	                         RWMutex+ROMutex); observed = the per-thread logs / counters.
@@ -504,6 +505,8 @@ func main() {
 		misuse(o)
 	case "conc":
 		conc(o, 0)
+	case "sched":
+		sched(o)
 	default:
 		if strings.HasPrefix(o.Extra, "conc:") {
 			conc(o, atoi(o.Extra[5:]))
